@@ -740,3 +740,111 @@ func CloseBackendWithBacklog(name, kind string, bound int) *world.Scenario {
 	}
 	return sc
 }
+
+// ---------------------------------------------------------------------------------------------
+// backlogs of many medium-sized messages at production buffer sizes (ring grows 1 KiB -> 2 -> 4 -> 5 -> 6.25 -> ... KiB)
+
+// SlowClientManyReplies: a slow client pipelines n GETs whose replies have `size` bytes each; the replies arrive one by
+// one, every flush is a write-oracle choice (all / EAGAIN / 1 byte / half / all but one), so the outbound ring fills,
+// is drained in part (read cursor off zero), wraps and has to grow while it is wrapped. Byte-exact stream at the end.
+func SlowClientManyReplies(name string, n, size, bound int) *world.Scenario {
+	sc := &world.Scenario{Nodes: T3m(), Bound: bound, Family: "slow-client-many-replies", Horizon: 2000, WriteOracle: true,
+		ReadCap: 65536, WriteCap: 65536, NoVariant: true}
+	reqs := []Req{PingReq()}
+	replyOf := map[string][]byte{}
+	var rest []byte
+	for j := 0; j < n; j++ {
+		k := fmt.Sprintf("{%s}%d", keysA[0], j)
+		r := GetReq(k)
+		r.Expect = world.Bulk(patterned(fmt.Sprintf("r%d", j), size+j*7%13))
+		replyOf[k] = r.Expect
+		reqs = append(reqs, r)
+		rest = append(rest, r.Bytes...)
+	}
+	cs := ClientOf(reqs, false)
+	cs.Chunks = []world.Chunk{{Data: reqs[0].Bytes}, {Data: rest, WaitReplies: 1}}
+	cs.Slow = true
+	sc.Clients = []world.ClientSpec{cs}
+	sc.Reply = func(w *world.World, bc *world.BConn, args [][]byte) ([]byte, int) {
+		if len(args) > 1 {
+			if r, ok := replyOf[string(args[1])]; ok {
+				return r, 0
+			}
+		}
+		return nil, 0
+	}
+	sc.Name = fmt.Sprintf("%s/slow-client-many-replies/%dx%dB/d%d", name, n, size, bound)
+	sc.Check = func(w *world.World) []world.Violation {
+		vs := CheckStreams(w, StreamOpts{})
+		for i := range vs {
+			if len(vs[i].Msg) > 500 {
+				vs[i].Msg = vs[i].Msg[:500] + "..."
+			}
+		}
+		return vs
+	}
+	return sc
+}
+
+// SlowBackendOverflow: node A reads slowly while one client pipelines split MSETs whose fragments for A carry `size`-byte
+// values: more than 64 KiB is parked for A (ring part full, rest in the overflow list), drained in part by writable
+// events, and further fragments are queued before the backlog is gone. The node must receive exactly the fragments, in
+// order, well-formed.
+func SlowBackendOverflow(name string, n, size, bound int) *world.Scenario {
+	sc := &world.Scenario{Nodes: T3m(), Bound: bound, Family: "slow-backend-overflow", Horizon: 3000, WriteOracle: true, SlowBackends: true,
+		ReadCap: 65536, WriteCap: 65536, MaxLen: 8 << 20, NoVariant: true}
+	var reqs []Req
+	for j := 0; j < n; j++ {
+		ka, kb := fmt.Sprintf("{%s}%d", keysA[0], j), fmt.Sprintf("{%s}%d", keysB[0], j)
+		reqs = append(reqs, MSetReq(ka, patterned(fmt.Sprintf("a%d", j), size+j), kb, "b"))
+	}
+	reqs = append(reqs, GetReq(keysA[1]))
+	cs := ClientOf(reqs, false)
+	// the later requests only arrive once the proxy has written fragment 0 and at least half of fragment 1 to node A: on
+	// the paths where a backlog built up, part of it is then still waiting (the condition becomes true on every path)
+	need := size + size/2
+	third := func(w *world.World) bool {
+		for _, bc := range w.BConns {
+			if bc.Addr == AddrA && bc.Sock.TxTotal >= need {
+				return true
+			}
+		}
+		return false
+	}
+	for j := 3; j < len(cs.Chunks); j++ {
+		cs.Chunks[j].Gate = third
+	}
+	sc.Clients = []world.ClientSpec{cs}
+	sc.Name = fmt.Sprintf("%s/slow-backend-overflow/%dx%dB/d%d", name, n, size, bound)
+	sc.Check = func(w *world.World) []world.Violation {
+		if vs := BackendsWellFormed(w); len(vs) > 0 {
+			if len(vs[0].Msg) > 500 {
+				vs[0].Msg = vs[0].Msg[:500] + "..."
+			}
+			return vs
+		}
+		// node A: the MSET fragments in request order, each with its own value
+		j := 0
+		for _, rec := range w.DataCmds(AddrA) {
+			if world.Lower(rec.Args[0]) != "mset" {
+				continue
+			}
+			wantK, wantV := fmt.Sprintf("{%s}%d", keysA[0], j), patterned(fmt.Sprintf("a%d", j), size+j)
+			if len(rec.Args) != 3 || string(rec.Args[1]) != wantK || string(rec.Args[2]) != wantV {
+				return []world.Violation{{Sig: "fragment-malformed", Msg: fmt.Sprintf("node A: fragment #%d should be MSET %s <%d bytes>, received key %q with %d value bytes", j, wantK, len(wantV), rec.Args[1], len(rec.Args[len(rec.Args)-1]))}}
+			}
+			j++
+		}
+		vs := CheckStreams(w, StreamOpts{})
+		for i := range vs {
+			if len(vs[i].Msg) > 400 {
+				vs[i].Msg = vs[i].Msg[:400] + "..."
+			}
+		}
+		if len(vs) == 0 && j != n {
+			vs = append(vs, world.Violation{Sig: "key-lost", Msg: fmt.Sprintf("node A received %d of %d MSET fragments", j, n)})
+		}
+		return vs
+	}
+	return sc
+}
